@@ -211,6 +211,93 @@ def _quota_fields(d, fns):
     return None
 
 
+def flatten_quota_struct(d):
+    """Normal form: the two u16 flow-control counters of Connection bundled in a private struct of their own
+    (`send_quota: SendQuota { available, maximum }`, with methods that the handlers call) are rewritten, in the fact
+    base, into the two plain fields of Connection the rules speak about: `conn.F.available` -> `conn.send_quota`,
+    `conn.F.maximum` -> `conn.remote_receive_maximum`; inside the methods of the bundle `self.available` becomes the same
+    field, and a reference to the bundle stands for the reference to the Connection it is part of. Which field is the
+    quota is read off the code: the one that is written with arithmetic (x - 1, x + 1). Returns a description or None."""
+    adts = {a["path"]: a for a in d["adts"]}
+    conn = adts.get(CONNECTION)
+    if conn is None:
+        return None
+    cf = conn["variants"][0]["fields"]
+    if sum(1 for x in cf if x["ty"] == "u16") == 2:
+        return None
+    cand = None
+    for x in cf:
+        t = adts.get(x["ty"])
+        if t and t["kind"] == "struct" and _layer(t["path"]) == "client" and len(t["variants"][0]["fields"]) == 2 and all(g["ty"] == "u16" for g in t["variants"][0]["fields"]):
+            cand = (x, t)
+    if cand is None:
+        return None
+    fld, T = cand
+    names = [g["name"] for g in T["variants"][0]["fields"]]
+    arith = {n: 0 for n in names}
+    for f in d["fns"]:
+        for b in f["blocks"]:
+            for st in b["stmts"]:
+                if st["k"] != "assign":
+                    continue
+                lp = [p for p in st["lhs"]["p"] if isinstance(p, dict) and "f" in p]
+                if not lp or lp[-1].get("adt") != T["path"]:
+                    continue
+                rv = st["rv"]
+                src = rv
+                if rv["k"] == "use" and rv["op"].get("k") in ("move", "copy") and rv["op"]["pl"]["p"]:
+                    # `x = move tmp.0` with tmp = CheckedSub(..)
+                    tl = rv["op"]["pl"]["l"]
+                    for b2 in f["blocks"]:
+                        for st2 in b2["stmts"]:
+                            if st2["k"] == "assign" and st2["lhs"]["l"] == tl and not st2["lhs"]["p"]:
+                                src = st2["rv"]
+                if src["k"] == "bin" and src["op"] in ("Add", "Sub"):
+                    arith[lp[-1]["n"]] += 1
+    quota = [n for n in names if arith[n] > 0]
+    if len(quota) != 1:
+        return None
+    role = {quota[0]: "send_quota", [n for n in names if n != quota[0]][0]: "remote_receive_maximum"}
+
+    def fix_place(pl):
+        out = []
+        pr = pl["p"]
+        j = 0
+        while j < len(pr):
+            p = pr[j]
+            if isinstance(p, dict) and "f" in p and p.get("adt") == CONNECTION and p.get("n") == fld["name"]:
+                nxt = pr[j + 1] if j + 1 < len(pr) else None
+                if isinstance(nxt, dict) and "f" in nxt and nxt.get("adt") == T["path"]:
+                    out.append({"f": 100 + names.index(nxt["n"]), "n": role[nxt["n"]], "adt": CONNECTION, "ty": "u16"})
+                    j += 2
+                    continue
+                j += 1          # a reference to the bundle stands for the Connection it is part of
+                continue
+            if isinstance(p, dict) and "f" in p and p.get("adt") == T["path"]:
+                out.append({"f": 100 + names.index(p["n"]), "n": role[p["n"]], "adt": CONNECTION, "ty": "u16"})
+                j += 1
+                continue
+            out.append(p)
+            j += 1
+        pl["p"] = out
+
+    def walk(x):
+        if isinstance(x, dict):
+            if "l" in x and "p" in x and isinstance(x["p"], list) and isinstance(x["l"], int):
+                fix_place(x)
+                return
+            for v in x.values():
+                walk(v)
+        elif isinstance(x, list):
+            for v in x:
+                walk(v)
+    for f in d["fns"]:
+        walk(f.get("blocks"))
+        walk(f.get("debug"))
+    conn["variants"][0]["fields"] = [x for x in cf if x is not fld] + [{"name": "send_quota", "ty": "u16", "pub": False}, {"name": "remote_receive_maximum", "ty": "u16", "pub": False}]
+    return {"bundle": T["path"], "field": fld["name"], "roles": role}
+
+
 def _strip_g(p):
     prev = None
     while prev != p:
@@ -244,7 +331,9 @@ def _codec_tx_helpers(d, out):
                 if t["k"] == "call" and t.get("callee") and t["callee"]["def"] in mp:
                     cs.append(t["callee"]["def"])
             return cs
-        vs = [m for m in meths if m.get("sig_out") == "core::base_types::VarSizeInt"]
+        # the length-prefix helpers take `&self` only; plumbing with further parameters (`remaining_len_with(&self, plen)`)
+        # is not a role of its own
+        vs = [m for m in meths if m.get("sig_out") == "core::base_types::VarSizeInt" and len(m.get("sig_in") or []) == 1]
         prefix = None
         if vs:
             root = None
@@ -531,9 +620,12 @@ def load_canonical(path):
                         for k, v in sd["fields"].items():
                             if x["name"] == v:
                                 x["name"] = k
+    fq = flatten_quota_struct(d)
+    if fq:
+        renamed.append(["bundle", fq["bundle"], fq["roles"]])
     fns, prefix = detect_fns(d)
     # the two u16 fields of Connection: handle_connack assigns quota := receive maximum
-    q = _quota_fields(d, fns)
+    q = None if fq else _quota_fields(d, fns)
     if q:
         pairs = {(CONNECTION, "send_quota"): q[0], (CONNECTION, "remote_receive_maximum"): q[1]}
         st["fields"].update(pairs)
